@@ -11,6 +11,7 @@ let () =
     "rt", (fun _ -> Wire.cmd_rt);
     "concat", (fun _ -> Wire.cmd_concat);
     "cursor", Xcursor.cmd_cursor;
+    "loop", Xloop.cmd_loop;
   ]
 
 let () =
